@@ -9,8 +9,10 @@ import json, os, random, re, subprocess, sys, time, hashlib, shutil
 
 VERIF = os.path.dirname(os.path.dirname(os.path.abspath(__file__)))
 COQ = os.path.join(VERIF, "coq")
-OUT = os.path.join(VERIF, "out")
-EVID = os.path.join(VERIF, "evidence")
+# QSX_OUT / QSX_EVIDENCE redirect replays and evidence (used by tools/eval_seed.sh: runs against a seeded change
+# must not touch the evidence of the real tree)
+OUT = os.environ.get("QSX_OUT") or os.path.join(VERIF, "out")
+EVID = os.environ.get("QSX_EVIDENCE") or os.path.join(VERIF, "evidence")
 KNOWN = os.path.join(VERIF, "known_findings.json")
 FORBIDDEN = r"\b(Admitted|admit|Axiom|Parameter|Conjecture|Admit Obligations|Unset Guard Checking|bypass_check|type-in-type|impredicative-set|Unset Universe Checking|Unset Positivity Checking)\b"
 
